@@ -115,6 +115,24 @@ def consume_rule(rep, prog, cfg):
     if inc is None:
         rep.fail(rule, cfg + "/incomplete test", b.loc(b.span), "no is_incomplete() test on the error of the component parse")
         return
+    # "need more bytes" (Ok(None)) is answered only after the component parser said Incomplete, or when the source buffer is
+    # empty: any other way to Ok(None) (a length / newline pre-check, a remembered byte count) leaves buffered bytes unparsed
+    # and makes the outcome depend on where a read ended
+    from .C10 import ok_none_blocks
+    allowed = [(inc["bb"], inc["true"])]
+    for bb in sorted(b.reachable()):
+        a = switch_atom(b, bb)
+        if a is None:
+            continue
+        if a["kind"] == "call" and any(x.endswith("::is_empty") for x in a["names"]) and a.get("args"):
+            src2, _ = fl.sources([op_local(a["args"][0])], through_call=identity_through, follow_mut=False)
+            if ("param", 2) in src2:
+                allowed.append((a["bb"], a["true"]))
+    nones = ok_none_blocks(b)
+    free = reach(g.succs, [0], avoid_edges=allowed)
+    rep.check(nones and not (nones & free), "C02.need-more", cfg + "/Ok(None) only after Incomplete or on an empty buffer", b.loc(b.span),
+              "ResponseBuilder::parse can answer 'need more bytes' without having offered the buffered bytes to the component parser (or the Ok(None) "
+              "return was not found): whether buffered input is looked at then depends on a length / content pre-check, i.e. on read segmentation")
     inc_region = reach(g.succs, [inc["true"]], avoid=[pbb])
     touched = [bb for bb, t in src_short if bb in inc_region]
     rets = [x for x in inc_region if b.blocks[x]["t"]["k"] == "return"]
@@ -451,6 +469,7 @@ def run(rep, progs, tier):
         "flavours share parser and builder and loop parse->read->EOF. NOT decided: the relational "
         "arithmetic of split_off/unsplit in the blocking connection (needs a numeric domain).")
     rep.rule("C02.streaming", "no nom ::complete:: combinator reachable from ParsedComponent::parse / greeting")
+    rep.rule("C02.need-more", "ResponseBuilder::parse returns Ok(None) only through the Incomplete edge or with an empty source buffer")
     rep.rule("C02.consume-on-ok", "source buffer shortened only after a successful component parse, by the exact consumed length; Incomplete leaves it untouched")
     rep.rule("C02.persist", "receive buffer/byte count are connection fields written only by connect/receive; same buffer read and parsed; never cleared by receive")
     rep.rule("C02.resize-fresh", "resize lengths derive from a fresh len() of the same buffer in the same loop iteration")
